@@ -295,6 +295,13 @@ def run(ctx, params):
         if i % 199 == 0:
             ctx.sample({"root": t.name, "strict": strict, "plants": log})
         emlkit.discard(t)
+    # every known element name planted once as a misplaced child (so that a broken mapping entry of any element is reached)
+    for j, name in enumerate(gen.known):
+        t = gen.minimal_tree("dataset")
+        host = rng.choice(treegen.all_nodes(t))
+        host.add_child(Node(name, content=rng.choice([None, "x"])), rng.randint(0, len(host.children)))
+        ctx.case(judge, ctx, t, j % 2 == 0, ["every-known-name:" + name])
+        emlkit.discard(t)
     c = treegen.corpus_tree()
     if c is not None:
         for strict in (False, True):
